@@ -149,8 +149,13 @@ func main() {
 		func() {
 			defer func() {
 				if e := recover(); e != nil {
+					// a shape the rules cannot interpret (e.g. after a refactoring): undecided, which fails
 					fmt.Fprintf(os.Stderr, "hsdkcheck: internal error while checking %s: %v\n", id, e)
-					panic(e)
+					if os.Getenv("HSDK_PANIC") != "" {
+						panic(e)
+					}
+					r.rule(id+".engine", "engine", "every rule of the property could be evaluated on this tree", 0)
+					r.missing(id+".engine", "rules-evaluated", fmt.Sprintf("the analysis aborted: %v", e))
 				}
 			}()
 			pd.Run(r)
@@ -195,7 +200,7 @@ func debugMain(dump, listPkg string, morph bool, overlay map[string][]byte) {
 	}
 	if listPkg != "" {
 		for _, f := range w.srcFns {
-			if f.Pkg != nil && strings.HasSuffix(f.Pkg.Pkg.Path(), listPkg) {
+			if f.Pkg != nil && (listPkg == "ALL" || strings.HasSuffix(f.Pkg.Pkg.Path(), listPkg)) {
 				fmt.Println(fnName(f))
 			}
 		}
